@@ -1,8 +1,20 @@
 (* C13 — Counts and dimensions agree with the tables they describe.
    Part 1: the certified checker that is evaluated (extracted) on the netlist the REAL floogen emitted
    is sound for the semantic statement C13_on over the hardware model Hw.v. *)
-From FV Require Import Base RouteMap Netlist Hw Check CheckProofs.
+From FV Require Import Base RouteMap Netlist Hw Check CheckProofs Desc Paths Routing Emit ModelProofs Examples.
 
 Theorem C13_checker_sound : forall n, chk_C13 n = [] -> C13_on n.
 Proof. exact chk_C13_sound. Qed.
 Print Assumptions C13_checker_sound.
+
+(* Part 2: the universal theorem over the generator model -- every description (any topology, any
+   size, any declaration order), every shortest-path oracle: whatever the model emits satisfies the
+   statement.  The model is tied to the code by the correspondence run (bit-identical netlists). *)
+Definition C13_statement : Prop := forall (sp : oracle) (d : desc) (n : netlist), run sp d = Ok n -> C13_on n.
+Theorem C13_holds : C13_statement.
+Proof. exact C13_model. Qed.
+Print Assumptions C13_holds.
+
+(* non-vacuity: the hypothesis is satisfiable (star with a manager-only endpoint, XY/ID/SRC mesh, tree) *)
+Example C13_nonvacuous : forallb accepted [ex_star ID; ex_star SRC; ex_mesh XY; ex_mesh SRC; ex_tree ID] = true.
+Proof. vm_compute. reflexivity. Qed.
